@@ -581,7 +581,9 @@ func (st *Stack) compactRangeStats(first, last int, expiration *LogExpirationCon
 }
 
 func (st *Stack) compactRange(first, last int, expiration *LogExpirationConfig) (bool, error) {
-	if first >= last && expiration == nil {
+	if first > last || (first == last && expiration == nil) {
+		// Nothing to compact: an empty range (empty stack), or a
+		// single table without log expiry.
 		return true, nil
 	}
 	st.Stats.Attempts++
